@@ -25,6 +25,13 @@ CLAIMED["C04"] = {
   "technique": "machine-checked proof in Lean 4 (termination measure, fuel sufficiency by induction) + model/implementation correspondence check + expansion oracle",
 }
 
+CLAIMED["C07"] = {
+  "text": "Lean 4 theorems (Geodesy/Props/C07.lean) over the model of helmert.rs in the real-number reading: the exact-mode rotation matrix is orthogonal with determinant one for every angle and both conventions (rot_orthogonal, rot_det_one; polynomial certificates checked by ring), position_vector = transpose of coordinate_frame in both modes (convention_transpose), small-angle pv(r) = cf(-r) (small_angle_sign), x -> T + S R x with the 4th coordinate untouched (helmert_affine, fourth_untouched), distances scale by S (helmert_similarity), inverse o forward = id and forward o inverse = id for S != 0 (inverse_exact, forward_undoes_inverse); and for EVERY scalar reading with IEEE-like NaN/equality: the stateful loop of helmert_common equals the map that evaluates the parameters at each tuple's own epoch, for all epoch sequences (loop_eq_map, induction with a loop invariant). Tied to /repo by a correspondence run (constructor output incl. T, R, S, ROTFLAT, flags, and applied values, <= 4 ulp) and by oracles on the implementation: EPSG guidance-note formulas, alias spellings, t_obs equivalence, conventions, round trips, and molodensky against the cartesian 3-parameter path.",
+  "design_ref": "DESIGN.md section 7, C07",
+  "note": "Partial: alias equivalence, t_obs equivalence and the molodensky clause are decided by the oracles, not by theorems; second-order size of the small-angle inverse residual is validated. Real-number theorems say nothing about rounding.",
+  "technique": "machine-checked proof in Lean 4 (real-algebra identities via linear_combination certificates; loop invariant induction) + model/implementation correspondence check",
+}
+
 ALL = ["C%02d" % i for i in range(1, 21)]
 
 def main():
